@@ -42,6 +42,8 @@ STRENGTHENED = {
  'C18_5': 'missed at first (one particle per update) -> two particles sharing ONE personal-best record (PSOGA does that), rule applied particle by particle',
  'C19_5': 'inconclusive at first (`math.isfinite` of a proxy) -> math shim in artap.surrogate; the objective may return +inf; the oracle keeps copies; values returned earlier must not be modified later',
  'C20_5': 'inconclusive at first (`np.asarray(vector, dtype=float)` of proxies) -> numpy shim in artap.individual; `containers-ndarray-*`: each point in several comparisons, operands untouched, hash unchanged',
+ 'C03_6': 'missed at first (crowding_distance called once per front) -> the same front is ranked again in another order and all crowding laws are re-checked on the new values',
+ 'C05_6': 'missed at first (one Problem object per process) -> configurations that create another Problem with the opposite minimise/maximise assignment first',
  'C20_4': 'inconclusive at first (`hash(point)` inside the library hit the int-only builtin) -> shim calls the real `__hash__`; the real CPython collision hash(-1.0) == hash(-2.0) as model-selection hint so that the counterexample replays',
 }
 print('| seed | change (abridged) | needs | verdict of the check(s) on the patched tree | note |')
